@@ -354,7 +354,7 @@ def harnesses(tier):
                                P(h_annulus, 'rectangle', inc, qy, au)))
         hs.append((f'in-operator/circle/include={iname}', P(h_in_operator, 'circle', inc)))
         hs.append((f'in-operator/rectangle/include={iname}', P(h_in_operator, 'rectangle', inc)))
-    polyn = [3, 4, 5] if q else [3, 4, 5, 6]
+    polyn = [3, 4, 5]       # n = 6 ran into solver timeouts (2 of 2 cases) even on an idle machine: outside the claim
     for n in polyn:
         for iname, inc in (INCLUDES if n <= 4 else INCLUDES[:1] + INCLUDES[2:3]):
             for qy in (['scalar', 'vec2', 'empty'] if n <= 4 else ['scalar']):
@@ -394,7 +394,7 @@ META = {
         'quick': {'polygon_vertices': '3..5', 'regular_polygon_n': [3, 4], 'query_containers': ['scalar', '(2,)', '(0,)'],
                   'include_flags': ['absent', True, False, 1, 0], 'angle_units': ['deg', 'rad'],
                   'continuous_parameters': 'unbounded reals (centre, sizes > 0, angle as a point on the unit circle, query position)'},
-        'thorough': {'polygon_vertices': '3..6', 'regular_polygon_n': [3, 4, 6, 8, 12],
+        'thorough': {'polygon_vertices': '3..5 (n = 6: solver timeout)', 'regular_polygon_n': [3, 4, 6, 8, 12],
                      'query_containers': ['scalar', '(2,)', '(1,2)', '(0,)', 'int scalar'],
                      'include_flags': ['absent', True, False, 1, 0],
                      'angle_units': ['default', 'deg', 'rad', 'arcmin', 'arcsec'],
